@@ -124,30 +124,48 @@ def check_chain(ctx, S, R="C14-CHAIN"):
     LIMIT = None
     # find `if cursor + size > LIMIT: size = LIMIT - cursor`
     clamp = None
+    okc = oks = False
+    setv = None
     for st in loop.body:
         if isinstance(st, ast.If) and not st.orelse and len(st.body) == 1 and isinstance(st.body[0], ast.Assign) and canon(st.body[0].targets[0]) == size:
             p = cmp_parts(st.test)
             if p and p[0] in (">", ">="):
                 clamp = (st, p)
+                op, a, b = p
+                try:
+                    okc = (rat(a) - rat(parse("%s + %s" % (cur, size)))).is_zero()
+                except (NormError, ZeroDivisionError):
+                    okc = False
+                LIMIT = b
+                setv = st.body[0].value
+                try:
+                    oks = (rat(setv) - (rat(b) - rat(parse(cur)))).is_zero()
+                except (NormError, ZeroDivisionError):
+                    oks = False
+        elif isinstance(st, ast.Assign) and canon(st.targets[0]) == size and isinstance(st.value, ast.Call) and A.call_name(st.value) in ("min", "np.minimum") \
+                and len(st.value.args) == 2 and not st.value.keywords and any(canon(x) == size for x in st.value.args):
+            # size = min(size, LIMIT - cursor): the same clamp in closed form
+            other = [x for x in st.value.args if canon(x) != size]
+            if len(other) == 1:
+                setv = other[0]
+                LIMIT = ast.BinOp(left=A.clone(setv), op=ast.Add(), right=ast.Name(id=cur, ctx=ast.Load()))
+                ast.fix_missing_locations(LIMIT)
+                try:
+                    r = rat(LIMIT)
+                    LIMIT = _limit_expr(setv, cur) or LIMIT
+                    okc = oks = True
+                except (NormError, ZeroDivisionError):
+                    okc = oks = False
+                clamp = (st, (">", None, LIMIT))
     if clamp is None:
-        ctx.violate(R, loop, "%s: next batch clamped to the budget" % q, "no `if cursor + size > LIMIT: size = LIMIT - cursor` in the loop: the sampler can run past the library / max_prior_samples", key=q + ":clamp")
+        ctx.violate(R, loop, "%s: next batch clamped to the budget" % q, "no `if cursor + size > LIMIT: size = LIMIT - cursor` (or `size = min(size, LIMIT - cursor)`) in the loop: the sampler can run past the library / max_prior_samples", key=q + ":clamp")
     else:
         st, (op, a, b) = clamp
-        try:
-            okc = (rat(a) - rat(parse("%s + %s" % (cur, size)))).is_zero()
-        except (NormError, ZeroDivisionError):
-            okc = False
-        LIMIT = b
-        setv = st.body[0].value
-        try:
-            oks = (rat(setv) - (rat(b) - rat(parse(cur)))).is_zero()
-        except (NormError, ZeroDivisionError):
-            oks = False
-        ctx.check(R, st, "%s: clamp tests cursor + size against the budget" % q, okc, "clamp tests `%s`" % A.unparse(st.test), key=q + ":clamp-test")
+        ctx.check(R, st, "%s: clamp tests cursor + size against the budget" % q, okc, "clamp tests `%s`" % A.unparse(st.test if isinstance(st, ast.If) else st.value), key=q + ":clamp-test")
         ctx.check(R, st, "%s: clamp sets size = LIMIT - cursor" % q, oks, "clamp assigns `%s`, expected %s - %s" % (A.unparse(setv), A.unparse(b), cur), key=q + ":clamp-set")
         # clamp must come after the cursor advance and the recomputation
         adv = [s for s in loop.body if isinstance(s, (ast.AugAssign, ast.Assign)) and canon(s.target if isinstance(s, ast.AugAssign) else s.targets[0]) == cur]
-        rec = [s for s in loop.body if isinstance(s, ast.Assign) and canon(s.targets[0]) == size]
+        rec = [s for s in loop.body if isinstance(s, ast.Assign) and canon(s.targets[0]) == size and s is not st]
         pos = {id(s): i for i, s in enumerate(loop.body)}
         ok_order = bool(adv) and all(pos[id(x)] < pos[id(st)] for x in adv + rec if id(x) in pos)
         ctx.check(R, st, "%s: clamp follows the cursor advance and the size recomputation" % q, ok_order, "clamp is evaluated before the cursor/size it must bound are updated", key=q + ":clamp-order")
@@ -195,6 +213,13 @@ def check_chain(ctx, S, R="C14-CHAIN"):
             okm = all(sh[0] == "G" or (sh[0] == "M[G]" and _is_arange(sh[1])) for sh in shapes)
             ctx.check(R, ra[0], "%s: accepted positions are library rows (identity order)" % q, okm, "final rows `%s`" % A.unparse(sel)[:60], key=q + ":map")
     return True
+
+
+def _limit_expr(setv, cur):
+    """setv = L - cur  ->  L  (when the difference is spelled that way)"""
+    if isinstance(setv, ast.BinOp) and isinstance(setv.op, ast.Sub) and canon(setv.right) == cur:
+        return setv.left
+    return None
 
 
 def _is_arange(M):
